@@ -65,7 +65,18 @@ if _cap:
 def stub_dir(scratch):
     d = Path(tempfile.mkdtemp(prefix='cli-stub-', dir=scratch))
     (d / 'chardet').mkdir()
-    (d / 'chardet' / '__init__.py').write_text("def detect(b):\n    return {'encoding': 'ascii', 'confidence': 1.0}\n")
+    (d / 'chardet' / '__init__.py').write_text(
+        "def detect(b):\n"
+        "    try:\n"
+        "        b.decode('ascii')\n"
+        "        return {'encoding': 'ascii', 'confidence': 1.0}\n"
+        "    except UnicodeDecodeError:\n"
+        "        pass\n"
+        "    try:\n"
+        "        b.decode('utf-8')\n"
+        "        return {'encoding': 'utf-8', 'confidence': 0.9}\n"
+        "    except UnicodeDecodeError:\n"
+        "        return {'encoding': 'ISO-8859-1', 'confidence': 0.7}\n")
     (d / 'sitecustomize.py').write_text(SITE)
     return d
 
